@@ -4,8 +4,8 @@ CONSTANTS
   Subs <- S1
   Ids <- I1
   MaxV = 6
-  Programs <- SubCollPrograms
-  SubKinds <- KindsLossy
+  Programs <- GcPrograms
+  SubKinds <- KindsPid
   InitStores <- CollStores
   PublishAfterUnlock = FALSE
   CreatedRevalidated = TRUE
@@ -17,6 +17,5 @@ CONSTANTS
   MayCancel = FALSE
   SnapAtCommit = TRUE
   CollectLive = TRUE
-VIEW ViewNoHist
-INVARIANTS TypeOK CommitValid EffectOnce LoserCodes Converged NoCommitMissed
+INVARIANT EmitSched
 CHECK_DEADLOCK FALSE
